@@ -8,7 +8,9 @@ Cases:  {'k': 'meta', 'stmts': [plain statements], 'var': transformed script, 's
 Observation (real code only): parse_model of the base script, of the transformed script, of every statement alone, and of the
 de-normalised equation of every endogenous symbol; ast.dump of every generated code line.
 K  = extracted parser model (parse_model_nocheck, coq/Extract/Graph driver) vs fsic.parse_model(check_syntax=False) on the base
-     script, the transformed script and every statement: every field of every Symbol / exception class.
+     script, the transformed script and every statement: every field of every Symbol / exception class; and the domain of the
+     fixed-point theorem: every real normalised equation, re-tokenised, passes the extracted Denorm.dq_ok, GNorm.neq_text /
+     Denorm.neq_code reproduce equation and code, and Denorm.denorm_text is the text the oracle feeds back.
 O  = the metamorphic relations of the property on the real observations (see `oracle`)."""
 import json
 import re
@@ -20,9 +22,10 @@ from props import C20 as G
 ID = 'C14'
 PROPS_FILE = 'Props/C14.v'
 MODEL_FILES = ['Parser/PyStr.v', 'Parser/Lex.v', 'Parser/Format.v', 'Parser/Symbols.v', 'Parser/Split.v', 'Parser/Merge.v', 'Parser/ParseEq.v',
-               'Parser/ParseModel.v', 'Graph/GLex.v', 'Graph/GNorm.v', 'Graph/Graph.v', 'Extract/Graph/ExtractGraph.v']
+               'Parser/ParseModel.v', 'Graph/GLex.v', 'Graph/GNorm.v', 'Graph/Graph.v', 'Layout/Denorm.v', 'Extract/Graph/ExtractGraph.v']
 K_NAME = ('K_parse_layout (extracted Parser.ParseModel.parse_model_nocheck vs fsic.parse_model(check_syntax=False) on base script, transformed '
-          'script and every statement alone: outcome class + every Symbol field)')
+          'script and every statement alone: outcome class + every Symbol field) + K_fixed_domain (extracted Denorm.dq_ok accepts every real '
+          'normalised equation of the generated grammar; neq_text / neq_code / denorm_text reproduce equation, code and the fed-back text)')
 RULE = ('programs of 1-4 equations from random syntax trees (as C20), each rendered in a base layout and under the catalogue: blanks '
         'inserted / multiplied at operator gaps, blanks after "(" / before ")" / before a call bracket, blanks inside { } < > [ ], explicit [0] '
         '(also on the left-hand side), +k for leads, continuation lines inside parentheses, trailing comments, comment and blank lines, '
@@ -122,6 +125,8 @@ class Lay:
             return self.var(t[1], t[2], t[3])
         if k == 'num':
             return t[1]
+        if k == 'verb':
+            return '`' + t[1] + '`'
         if k == 'neg':
             return '-' + self.atom(t[1])
         if k == 'par':
@@ -146,7 +151,7 @@ class Lay:
         return s
 
     def atom(self, t):
-        if t[0] in ('var', 'num', 'call', 'par'):
+        if t[0] in ('var', 'num', 'call', 'par', 'verb'):
             return self.expr(t)
         return self.paren(t)
 
@@ -301,7 +306,7 @@ def impl(case):
                 continue
             d = denorm(eq)
             r = _parse(d)
-            ent = {'name': name, 'fed': d, 'eq': eq, 'code': code}
+            ent = {'name': name, 'fed': d, 'eq': eq, 'code': code, 'wit': G._witness(eq)}
             if 'exc' in r:
                 ent['exc'] = r['exc']
             else:
@@ -314,6 +319,7 @@ def impl(case):
 
 # --------------------------------------------------------------------------- correspondence
 _K_DETAIL = {}
+_K_STATS = {'equations': 0, 'in_domain': 0}
 
 
 def correspond(cases, obs, tag, tier):
@@ -338,12 +344,43 @@ def correspond(cases, obs, tag, tier):
             if i not in bad:
                 bad.append(i)
                 _K_DETAIL[lib.jhash(cases[i])] = {'s': s, 'impl': real[:300], 'model': m[:300]}
+    # the domain of the fixed-point theorem
+    reqs, where = [], []
+    for i, (c, o) in enumerate(zip(cases, obs)):
+        if o is None:
+            continue
+        for ent in o.get('fix', []):
+            _K_STATS['equations'] += 1
+            if ent.get('wit') is None or ent['code'] is None:
+                continue
+            reqs.append('D %s %s %s' % (pc.hx(ent['eq']), pc.hx(ent['code']), ent['wit']))
+            where.append((i, ent))
+    ans, errs = G.run_driver(reqs)
+    if errs:
+        return [], errs
+    for (i, ent), a in zip(where, ans):
+        if a.startswith('1:'):
+            _K_STATS['in_domain'] += 1
+            if pc.unhx(a[2:]) != ent['fed'] and i not in bad:
+                bad.append(i)
+                _K_DETAIL[lib.jhash(cases[i])] = {'denorm_text': pc.unhx(a[2:]), 'fed by the oracle': ent['fed']}
+        elif a in ('0t', '0c'):
+            if i not in bad:
+                bad.append(i)
+                _K_DETAIL[lib.jhash(cases[i])] = {'neq_text / neq_code differ (%s) for' % a: ent['eq']}
+        elif cases[i]['k'] == 'meta' and not cases[i]['flags']:
+            if i not in bad:                      # an equation of the generated grammar outside the theorem's conditions
+                bad.append(i)
+                _K_DETAIL[lib.jhash(cases[i])] = {'dq_ok false for': ent['eq']}
     return sorted(bad), errors
 
 
 def explain(case, obs):
     d = _K_DETAIL.get(lib.jhash(case))
-    return {'first_disagreement': d} if d else None
+    out = {'fixed_point_domain': dict(_K_STATS)}
+    if d:
+        out['first_disagreement'] = d
+    return out
 
 
 def guard(case, obs):
@@ -457,6 +494,16 @@ def oracle(case, obs):
                         add('layout-code-meaning', 'the generated code differs in meaning: %r vs %r' % (eb[k][1], ev[k][1]))
                     elif case.get('strict') and eb[k] != ev[k]:
                         add('layout-strings', 'same gaps non-empty but equation / code strings differ: %r vs %r' % (eb[k], ev[k]))
+    # ---- verbatim fragments and quoted period names are not layout: they reach the code character by character
+    if case['k'] == 'meta' and 'syms' in base:
+        code_of = {x[0]: x[5] for x in base['syms'] if x[1] == 'ENDOGENOUS'}
+        for st in case['stmts']:
+            code = code_of.get(re.match(r'[A-Za-z_][A-Za-z_0-9]*', st).group(0)) if re.match(r'[A-Za-z_]', st) else None
+            for frag in re.findall(r'`([^`\n]+)`', st) + re.findall(r"\[\s*('[^'\n]*'|\"[^\"\n]*\")\s*\]", st):
+                if frag[0] not in '\'"' and re.fullmatch(r'\s*[+-]?[0-9]+\s*', frag):
+                    continue
+                if code is None or frag not in code:
+                    add('verbatim-preserved', 'the fragment %r of %r does not appear in the code %r' % (frag, st, code))
     # ---- the normal form is a fixed point
     for ent in obs.get('fix', []):
         if 'exc' in ent:
